@@ -795,7 +795,19 @@ func errClass(err error) string {
 	if len(m) > 40 {
 		m = m[:40]
 	}
-	return strings.ReplaceAll(m, " ", "_")
+	m = strings.ReplaceAll(m, " ", "_")
+	// numbers would make one counter per value
+	var out []rune
+	for _, r := range m {
+		if r >= '0' && r <= '9' {
+			if n := len(out); n > 0 && out[n-1] == '#' {
+				continue
+			}
+			r = '#'
+		}
+		out = append(out, r)
+	}
+	return string(out)
 }
 
 // postAcceptErr reports whether err can only be given to a record that had
